@@ -312,8 +312,14 @@ def do_edit(ctx, E, m, sh, step, counter):
     return 'observe(%s)' % x
 
 
-def h_edit(ctx, program, steps):
-    specs = PROGRAMS[program]
+def h_edit(ctx, program, steps, family=None):
+    if family:
+        from harness.C03 import family_program
+        specs = family_program(ctx, family)      # solver-chosen program (every program of `family` nodes)
+        for s_ in specs:
+            s_.uses_meta = False
+    else:
+        specs = PROGRAMS[program]
     E = EBuilt(ctx, specs)
     m = E.model
     sh = Shadow(specs, E.const, E.obs)
@@ -387,6 +393,9 @@ HARNESSES = [
       tiers=('thorough',), max_paths=600000),
     H('edit2_two_leaves', h_edit, dict(program='two_leaves', steps=2),
       bounds='program two_leaves (t; a(t); y(a,t); z(t)), every 2-step script (become with an existing leaf as replacement)'),
+    H('edit1_family_3nodes', h_edit, dict(program=None, steps=1, family=3), tiers=('thorough',), max_paths=2000000,
+      bounds='EVERY program of 3 nodes (kinds, positional / named edges, positional order, observations solver-chosen as in C03 '
+             'gen_family_3nodes), every 1-step script'),
     H('copy_fork_sims', h_copy, dict(program='fork_sims', steps=1),
       bounds='program fork_sims (parents passed in another order than created), optional edit, copy, 1 edit of the copy'),
     H('copy_chain', h_copy, dict(program='chain', steps=1), bounds='program chain, optional edit, copy, 1 edit of the copy',
